@@ -9,7 +9,7 @@ from __future__ import annotations
 
 from typing import Any, Dict, FrozenSet, List, Optional, Set, Tuple
 
-from ..automaton import build
+from ..automaton import admitted_kinds, build
 from ..interp import Event, Path
 from ..loader import AnalysisError, Program
 from ..model import Model
@@ -201,6 +201,7 @@ def check(run: Run, prog: Program, model: Model, tier: str) -> None:
         "exact or rounded up, an upper one exact or rounded down. KIND-AGREE: the generated value's kind equals the "
         "validator's type guard. REQUIRED-KEYS: generated dicts contain every required key. Whether concrete "
         "generated values validate for all RNG outcomes (float grid arithmetic, regex matches) is not decided.")
+    run.explanation += " A declared bound returned as the generated value carries every kind the declaration's isinstance guards admit for it (KIND-AGREE); when the validator rejects values that round(value, precision) changes, every generator path under that state returns round(_, precision) - the random.uniform fallback guarded by a float-product test is reported (GRID)."
     run.rule_text = ("obligations per (type, state/shape, prop) for MIRROR, per draw site and state for DRAW-ORDER, per bound "
                      "for ROUND-DIR, per type for KIND-AGREE; non-trivial = dependence / entailment derived on interpreter paths")
     run.trusted += ["satisfiable-schema axioms ax1 (declared min <= max, min_len <= max_len, len(substr) <= max length, lengths >= 0)",
@@ -321,13 +322,24 @@ def check(run: Run, prog: Program, model: Model, tier: str) -> None:
             want = TYPE.get(hook)
             if want:
                 kinds = set()
+
+                def value_kinds(v: V) -> Set[str]:
+                    # a declared bound handed out as the generated value has every kind the declaration admits for it
+                    if isinstance(v, Sym) and v.origin and v.origin[0] == "prop" and v.origin[1] != "value":
+                        adm = admitted_kinds(prog, model, st, v.origin[1])
+                        if adm is not None:
+                            return set(adm)
+                    if isinstance(v, Term) and v.op in ("max", "min"):
+                        out: Set[str] = set()
+                        for a in v.args:
+                            if isinstance(a, V):
+                                out |= value_kinds(a)
+                        if out:
+                            return out
+                    return {v.kind} if v.kind else set()
                 for p in paths:
                     if p.outcome == "return" and p.value is not None and p.value.key() != "props.value":
-                        k = p.value.kind
-                        if isinstance(p.value, Const):
-                            k = p.value.kind
-                        if k:
-                            kinds.add(k)
+                        kinds |= value_kinds(p.value)
                 bad = sorted(k for k in kinds if not (kind_is(k, want) or k == want))
                 c = f"Generator.{hook} {label}: kind"
                 if bad:
@@ -335,6 +347,44 @@ def check(run: Run, prog: Program, model: Model, tier: str) -> None:
                                  witness=f"validate(s, fake(s)) reports a type error")
                 elif kinds:
                     run.holds("KIND-AGREE", c, f.loc, f"generated kind {sorted(kinds)} matches the validator's guard {want}", nontrivial=False)
+            # ---------------- GRID: a validator that rejects values off the precision grid needs a generator that stays on it
+            if hook == "visit_float" and "precision" in cfg.setprops and "value" not in cfg.setprops:
+                vrows, _ = extract(prog, model, "Validator", hook, Config(cfg.setprops))
+                grid = [r for r in vrows if r.error != "TypeValidationError" and any(
+                    isinstance(t, V) and "builtins.round" in t.key() and "props.precision" in t.key() and "value" in t.key()
+                    for _, t, _ in r.all_facts[-2:])]
+                c = f"Generator.visit_float {label}: precision grid"
+                if grid:
+                    off = []
+                    inexact = False
+                    for p in paths:
+                        if p.outcome != "return" or p.value is None:
+                            continue
+                        k = p.value.key()
+                        if not (k.startswith("call(builtins.round,") and k.rstrip(")").endswith("props.precision")):
+                            off.append(k[:70])
+                            # the path is taken when the generator found no grid point; in exact arithmetic that means the
+                            # schema is unsatisfiable (exempt) - but a test on ceil/floor of a float product is not exact
+                            for fk, t, b in p.facts:
+                                if b and isinstance(t, Term) and t.op in ("gt", "lt") and ("math.ceil" in fk or "math.floor" in fk) \
+                                        and "bin(*" in fk:
+                                    inexact = True
+                    if off and "min" not in cfg.setprops and "max" not in cfg.setprops:
+                        run.holds("GRID", c, f.loc, "off-grid fallback needs a declared bound to be reachable", nontrivial=False)
+                    elif off and inexact:
+                        run.violated("GRID", c, f.loc, f"the validator rejects a value that round(value, precision) changes "
+                                     f"({grid[0].error} @ {grid[0].site}); the generator returns {sorted(set(off))[0]} when its "
+                                     "no-grid-point test, evaluated on ceil/floor of float products, succeeds - which it can for a "
+                                     "range that does contain a grid point (0.07 * 100 == 7.000000000000001)",
+                                     witness="fake(schema.float.min(0.07).max(0.075).precision(2)) falls back to random.uniform "
+                                             "and the result is rejected although 0.07 satisfies the schema")
+                    elif off:
+                        run.undecided("GRID", c, f.loc, f"the generator returns {sorted(set(off))[0]} on a path whose guard could not "
+                                      "be shown to imply that no grid point exists")
+                    else:
+                        run.holds("GRID", c, f.loc, "every path returns round(_, precision)", nontrivial=True)
+                else:
+                    run.holds("GRID", c, f.loc, "the validator does not require on-grid values when no value is declared", nontrivial=False)
             # ---------------- REQUIRED-KEYS
             if st.name == "DictSchema" and "keys" in vals:
                 req = [k.key() for k, tv in vals["keys"].pairs() if not is_ell(k) and tv.items[1].value is False]
@@ -633,11 +683,22 @@ def _round_dir(run: Run, prog: Program, model: Model) -> None:
     if not found:
         run.undecided("ROUND-DIR", "Random.random_float: grid bounds", f.loc, "no integer grid draw found on the precision path")
     run.floor("ROUND-DIR", 2)
+    run.floor("GRID", 3)
 
 
 G = "d42/generation/_generator.py"
 R = "d42/generation/_random.py"
 MUTANTS = [
+    {"name": "float bounds may be ints and a degenerate range returns the bound itself (seeded C01-I)", "rule": "KIND-AGREE",
+     "edits": [("d42/declaration/types/_float_schema.py", "    def min(self, /, value: float) -> \"FloatSchema\":\n        if not isinstance(value, float):", "    def min(self, /, value: float) -> \"FloatSchema\":\n        if not isinstance(value, (int, float)):"),
+               (R, "        if precision is Nil:\n            return random.uniform(start, end)\n", "        if start == end:\n            return start\n\n        if precision is Nil:\n            return random.uniform(start, end)\n")]},
+    {"name": "neutral: degenerate range returns the (float) bound itself", "expect": "SILENT",
+     "edits": [(R, "        if precision is Nil:\n            return random.uniform(start, end)\n", "        if start == end:\n            return start\n\n        if precision is Nil:\n            return random.uniform(start, end)\n")]},
+    {"name": "neutral: float bounds may be ints (every generator path still yields a float)", "expect": "SILENT",
+     "edits": [("d42/declaration/types/_float_schema.py", "    def min(self, /, value: float) -> \"FloatSchema\":\n        if not isinstance(value, float):", "    def min(self, /, value: float) -> \"FloatSchema\":\n        if not isinstance(value, (int, float)):")]},
+    {"name": "validator demands on-grid floats when only a precision is declared (seeded C01-J)", "rule": "GRID",
+     "edits": [("d42/validation/_validator.py", "        if schema.props.min is not Nil:\n            if value < schema.props.min:\n                result.add_error(MinValueValidationError(path, value, schema.props.min))\n\n        if schema.props.max is not Nil:\n            if value > schema.props.max:\n                result.add_error(MaxValueValidationError(path, value, schema.props.max))\n\n        return result\n\n    def visit_str",
+                "        if schema.props.value is Nil and schema.props.precision is not Nil:\n            rounded = round(value, schema.props.precision)\n            if isfinite(value) and (rounded != value):\n                result.add_error(ValueValidationError(path, value, rounded))\n\n        if schema.props.min is not Nil:\n            if value < schema.props.min:\n                result.add_error(MinValueValidationError(path, value, schema.props.min))\n\n        if schema.props.max is not Nil:\n            if value > schema.props.max:\n                result.add_error(MaxValueValidationError(path, value, schema.props.max))\n\n        return result\n\n    def visit_str")]},
     {"name": "default list maximum halved per nesting level, re-clamped with the constant minimum", "rule": "DRAW-ORDER",
      "edits": [(G, "                max_length = max(max_length, min_length)\n            length = self._random.random_int(min_length, max_length)\n\n        if schema.props.type is not Nil:\n            return [schema.props.type.__accept__(self, **kwargs) for _ in range(length)]",
                 "                max_length = max(max_length, min_length)\n                max_length = max(max_length >> self._depth, LIST_LEN_MIN)\n            length = self._random.random_int(min_length, max_length)\n\n        if schema.props.type is not Nil:\n            self._depth += 1\n            try:\n                return [schema.props.type.__accept__(self, **kwargs) for _ in range(length)]\n            finally:\n                self._depth -= 1"),
